@@ -1096,7 +1096,40 @@ def run_legacy(case):
     muts = [m for m in case["mutations"] if m["where"] in regions or m["where"] == "channel_pubkey"]
     n_mut = run_mutations(out, lb, case, signed_raw, out_pos, chan_raw, chan_pos, chan_pub, scheme, muts, case["sweep"])
     out.nontrivial = n_mut >= 1
+    if case.get("pay") != "p2sh":
+        resign_parsed_claim(out, lb, signed_raw, out_pos, scheme, tag_class.split(":")[0])
     return out
+
+
+RESIGN_CHANNEL = {"name": "@resign", "title": "t", "email": None, "update": False, "claim_id": None, "seed": "5a" * 32, "n": 3,
+                  "pos": 1, "locktime": 7}
+
+
+def resign_parsed_claim(out, lb, signed_raw, out_pos, scheme, cls):
+    """history on one object: a claim parsed from the chain (possibly signed under an earlier release's scheme) is detached from
+    its channel and signed by another channel of this wallet, the way a claim is moved between channels; the new signature
+    must validate in memory and after a raw round trip, judged by the reference as well"""
+    tx = lb["Transaction"](signed_raw)
+    txo = tx.outputs[out_pos]
+    if not txo.claim.is_signed:
+        return
+    new_chan = build_channel(lb, RESIGN_CHANNEL, _dummy_input_factory(lb, 424242))
+    new_raw_chan, new_pos = new_chan.tx_ref.tx.raw, RESIGN_CHANNEL["pos"]
+    txo.clear_signature()
+    txo.sign(new_chan)
+    tx._reset()
+    resigned = tx.raw
+    out.label("resigned_" + scheme)
+    try:
+        mem = bool(txo.is_signed_by(new_chan, _ledger()))
+    except Exception as e:
+        out.violate("resign:own-signature-raises:%s:%s" % (type(e).__name__, cls), repr(e)[:200])
+        return
+    out.check(mem, "resign:own-signature-rejected:in-memory:" + cls, "was signed under scheme %s; now %s" % (scheme, resigned.hex()[:400]))
+    ok, why = ref_validate_signed_claim(resigned, out_pos, new_raw_chan, new_pos, expect_pub=channel_secret(RESIGN_CHANNEL).pub)
+    out.check(ok, "resign:reference-rejects:%s:%s" % (why, cls), resigned.hex()[:400])
+    verdict, exc = lbry_validates(lb, resigned, out_pos, new_raw_chan, new_pos)
+    out.check(verdict is True, "resign:own-signature-rejected:after-raw-roundtrip:" + cls, "verdict=%r exc=%r" % (verdict, exc))
 
 
 PARTS = [
@@ -1114,5 +1147,5 @@ PARTS = [
          essential=("scheme_v1", "scheme_v2", "high_s", "low_s", "channel_form_v1_cert", "channel_form_v2_der",
                     "channel_form_v2_compressed", "claim_pays_script_hash", "real_ytsync_v1_legacy", "real_python_ecdsa_signed_v2",
                     "real_ytsync_v2_der_channel_key", "mut_address", "mut_payload", "mut_signature",
-                    "mut_channel_pubkey", "full_payload_sweep")),
+                    "mut_channel_pubkey", "full_payload_sweep", "resigned_v1", "resigned_v2")),
 ]
